@@ -7,7 +7,8 @@ EXPLANATION = ("Termination / no-repeat follows from a lexicographic measure ove
                "written only by branch creation, step() and explore(), with the documented values (X2); every successful step() strictly "
                "advances the deepest non-exhausted branch, discards everything deeper, visits branches from the deepest, and reports "
                "exhaustion only after the loop (X3); step() resets the per-iteration fields and exhaustion propagates to Builder::check (X4). "
-               "The argument itself (DESIGN.md C14) is manual; determinism of user code and iteration counts are not decided.")
+               "The argument itself (DESIGN.md C14) is manual; determinism of user code and iteration counts are not decided."
+               " G0/G1 cross-check the arm/branch steps against the reference tree.")
 RULE_TEXT = "rule instances = writers of branch state, arms of step(), reset fields; non-trivial when matched to concrete MIR sites"
 LEVEL_NOTE = "premises decided statically; the termination argument built on them is a manual paragraph (assumption)"
 
